@@ -183,7 +183,11 @@ def run_harness(binary, args=(), stdin=None, env=None, timeout=3600):
         e.update(env)
     r = subprocess.run([binary] + [str(a) for a in args], input=stdin, capture_output=True, text=True, env=e, timeout=timeout)
     if r.returncode != 0:
-        raise HarnessRunError(binary, r.returncode, r.stderr[-2000:], r.stdout[-500:])
+        e = HarnessRunError(binary, r.returncode, r.stderr[-2000:], r.stdout[-500:])
+        e.out_lines = r.stdout.splitlines()
+        if e.out_lines and not r.stdout.endswith('\n'):
+            e.out_lines = e.out_lines[:-1]   # drop a partially written last line
+        raise e
     return r.stdout.splitlines()
 
 
